@@ -20,9 +20,40 @@ const (
 func arraySort(idx, el Sort) Sort { return Sort("(Array " + string(idx) + " " + string(el) + ")") }
 func (s Sort) isArray() bool      { return strings.HasPrefix(string(s), "(Array ") }
 func (s Sort) elem() Sort {
-	// (Array Int X)
-	t := strings.TrimPrefix(string(s), "(Array Int ")
-	return Sort(strings.TrimSuffix(t, ")"))
+	// (Array K V): V is the last top-level component
+	t := strings.TrimSuffix(strings.TrimPrefix(string(s), "(Array "), ")")
+	depth := 0
+	for i := 0; i < len(t); i++ {
+		switch t[i] {
+		case '(':
+			depth++
+		case ')':
+			depth--
+		case ' ':
+			if depth == 0 {
+				return Sort(t[i+1:])
+			}
+		}
+	}
+	return Sort(t)
+}
+
+func (s Sort) key() Sort {
+	t := strings.TrimSuffix(strings.TrimPrefix(string(s), "(Array "), ")")
+	depth := 0
+	for i := 0; i < len(t); i++ {
+		switch t[i] {
+		case '(':
+			depth++
+		case ')':
+			depth--
+		case ' ':
+			if depth == 0 {
+				return Sort(t[:i])
+			}
+		}
+	}
+	return SInt
 }
 
 type Term struct {
@@ -573,6 +604,7 @@ func (st *symtab) noteSort(s Sort) {
 	}
 	if s.isArray() {
 		st.noteSort(s.elem())
+		st.noteSort(s.key())
 		return
 	}
 	if strings.HasPrefix(string(s), "(_") || s == "" {
